@@ -33,6 +33,8 @@ struct Graph {
     edge: [[Edge; 4]; 4],
     /// directives of a module in descending target order instead of ascending
     rev: bool,
+    /// which modules import a data file (bit m)
+    data: u8,
 }
 
 /// definitions of module m, in order: (name, arity)
@@ -49,8 +51,11 @@ fn defs_of(m: usize) -> Vec<(&'static str, usize)> {
     d
 }
 
+thread_local! { static DATA_MASK: std::cell::Cell<u8> = const { std::cell::Cell::new(0b0101) }; }
+
+/// does module m import a data file as $d? (bit m of the graph's mask; main and b by default)
 fn has_data(m: usize) -> bool {
-    m == 0 || m == 2
+    DATA_MASK.with(|d| d.get() >> m & 1 == 1)
 }
 
 /// the target order of the directives of module m
@@ -303,19 +308,21 @@ fn run_prog(f: &jq::F, data: Vec<Val>) -> String {
     jq::trace_json(&jq::run_trace(f, jq::to_val(&input), vars, vec![], 8)).to_string()
 }
 
-fn graphs(with_rev: bool) -> Vec<Graph> {
+fn graphs(with_rev: bool, masks: &[u8]) -> Vec<Graph> {
     let pairs = [(0, 1), (0, 2), (0, 3), (1, 2), (1, 3), (2, 3)];
     let mut out = vec![];
-    for code in 0..3usize.pow(6) {
-        let mut edge = [[Edge::None; 4]; 4];
-        let mut c = code;
-        for (x, y) in pairs {
-            edge[x][y] = [Edge::None, Edge::Include, Edge::Import][c % 3];
-            c /= 3;
-        }
-        out.push(Graph { edge, rev: false });
-        if with_rev {
-            out.push(Graph { edge, rev: true });
+    for &data in masks {
+        for code in 0..3usize.pow(6) {
+            let mut edge = [[Edge::None; 4]; 4];
+            let mut c = code;
+            for (x, y) in pairs {
+                edge[x][y] = [Edge::None, Edge::Include, Edge::Import][c % 3];
+                c /= 3;
+            }
+            out.push(Graph { edge, rev: false, data });
+            if with_rev {
+                out.push(Graph { edge, rev: true, data });
+            }
         }
     }
     out
@@ -324,12 +331,15 @@ fn graphs(with_rev: bool) -> Vec<Graph> {
 pub fn main(tier: Tier) -> ! {
     jq::quiet_panics();
     let run = Run::new("C16", "model_checking", tier);
-    let gs = graphs(true);
+    // which modules import a data file: main and b (quick); every subset of the four modules (thorough)
+    let masks: Vec<u8> = if run.quick() { vec![0b0101] } else { (0..16).collect() };
+    let gs = graphs(true, &masks);
     let c = gs
         .par_iter()
         .map(|g| {
             let mut c = Counts::default();
-            let key = format!("graph {:?} rev={}", g.edge.iter().flatten().map(|e| format!("{e:?}").chars().next().unwrap()).collect::<String>(), g.rev);
+            DATA_MASK.with(|d| d.set(g.data));
+            let key = format!("graph {:?} rev={} data-imports={:04b}", g.edge.iter().flatten().map(|e| format!("{e:?}").chars().next().unwrap()).collect::<String>(), g.rev, g.data);
             // positive: the split program equals the inlined program
             let (files, main) = files_of(g, None);
             let inl = inlined(g);
@@ -473,6 +483,7 @@ pub fn main(tier: Tier) -> ! {
     run.add(c);
 
     let g0 = &gs[2 * (1 + 3 * 2 + 9 * 0 + 27 * 1 + 81 * 2 + 243 * 1)];
+    DATA_MASK.with(|d| d.set(g0.data));
     run.sample(json!({"graph": format!("{:?}", g0.edge), "main": module_text(g0, 0, None, None), "a.jq": module_text(g0, 1, None, None), "b.jq": module_text(g0, 2, None, None), "inlined": inlined(g0)}));
     run.finish(
         "module graphs: main and three modules a, b, c; each of the six forward edges is absent, an include or an import with an alias (729 graphs, each with both directive orders); every module defines f (a twice), first (shadowing the builtin), h($v), a unique u_x, g (b and c also w); main and b import a data file as $d; a global $glob; g and the main filter call every name that an independent resolver (own definitions up to the calling one, then included modules latest first with only their own definitions, then builtins; aliases latest first; variables: local, own data import, global) says is visible, from under two binders. The module set is loaded from an in-memory file system by the real loader and compiler; its output must equal the output of the inlined single program. Every name the resolver says is invisible at a place is inserted there and must make loading or compilation fail. Cycles, missing files and broken modules must be reported; diamonds, repeated imports, several data imports work. At process level: every placement of a module among the candidate directories (search metadata relative to the importing file or the working directory, -L paths, ~ and $ORIGIN), extension rules, absolute paths. non-trivial = every case",
